@@ -954,6 +954,10 @@ pub struct RefRun {
 }
 
 pub fn reference_dec(enc: &'static Encoding, bom: Bom, repl: bool, form16: bool, stream: &[u8]) -> RefRun {
+    // guarded copy: whatever an over-reading converter finds behind the stream is
+    // the same in every process
+    let guarded = Guard8::from(stream, 0);
+    let stream = guarded.slice();
     let mut d = new_decoder(enc, bom);
     let mut r = RefRun { text: Vec::new(), had_errors: false, malformed: Vec::new(), final_enc: enc, ok: true, note: String::new() };
     let cap = 4 * stream.len() + 64;
